@@ -67,6 +67,7 @@ func main() {
 	r.Require("flex_prepend_realloc_double", 5000)
 	r.Require("flex_prepend_realloc_exact", 1000)
 	r.Require("flex_subslice_adopted", 1000)
-	r.Require("flex_selfarg_prepend", 10)
+	r.Require("flex_selfarg_prepend", 2000)
+	r.Require("flex_selfarg_prepend_within_capacity_offset_arg", 1000)
 	r.Finish()
 }
